@@ -408,7 +408,8 @@ def replay(path):
     lines += [m['request'] for b in d.get('no_longer_checks', []) + d.get('model_vs_code', []) if b.get('kind') == 'correspondence' for m in b.get('first', [])]
     if lines:
         real = run_real(lines, 'default')
-        model = run_driver(lines, ('1', '0')) if os.path.exists(os.path.join(LEAN, '.lake', 'build', 'bin', 'driver')) else ['?'] * len(lines)
+        # the model is per pixel: a layout suffix (` L<mode> <index>`, multi-row frame in the real run) is dropped for it
+        model = run_driver([re.sub(r' L[12] \d+$', '', l) for l in lines], ('1', '0')) if os.path.exists(os.path.join(LEAN, '.lake', 'build', 'bin', 'driver')) else ['?'] * len(lines)
         for l, a, b in zip(lines, real, model):
             print('request: %s\n   real : %s\n   model: %s' % (l, a, b))
     for f in d.get('failing_inputs', []):
